@@ -15,8 +15,10 @@ def key_fn(case, obs, verdict):
         return "startup-profile-token-count:%s" % v
     if f[0] == "cfg":
         return "pool-from-config:%s" % v
+    if f[0] == "cleft":
+        return "composite-profile-tokens-left:%s" % v
     if f[0] == "fincb":
-        kind = "unlimited" if f[1].startswith("unl:") else "finite"
+        kind = "unlimited" if "unl:" in f[1] else "finite"
         return "rps-finish-callback:%s-schedule:fired-before-end-or-not-once" % kind
     return "engine-start-loop:%s" % v
 
@@ -24,7 +26,7 @@ def key_fn(case, obs, verdict):
 def run(ctx):
     common.standard(
         ctx, harness="hC12", extracted="C12_model", driver_dir="C12",
-        rule=("non-trivial: instance_step cases with to > from; engine cases whose startup profile has at least 2 tokens; wait cases with at least 2 tokens and a busy caller; cfg cases whose startup profile has at least 2 tokens; count cases with at least 1 token; "
+        rule=("non-trivial: instance_step cases with to > from; engine cases whose startup profile has at least 2 tokens; wait cases with at least 2 tokens and a busy caller; cfg cases whose startup profile has at least 2 tokens; count cases with at least 1 token; cleft cases with at least 2 parts; "
               "distinct = distinct case lines"),
         key_fn=key_fn,
         translators=[("gofn-istep", "GoFnIstepGen.v"), ("sched", "SchedGen.v")], bridge_files=["Gen/GoFnIstep_bridge.v", "Gen/StartProfile_bridge.v"],
